@@ -12,7 +12,8 @@ open Strophe Strophe.Conn
 def txRec (c : Conn) (e : QElem) : TxRec :=
   { item := e.item, owner := e.owner, sec := c.hasTls, snap := e.snap, attemptW := c.g.attempt,
     mandatoryW := c.tlsMandatory, tlsDisabledW := c.tlsDisabled, legacyW := c.authLegacy,
-    notifiedW := c.g.notifiedConnect }
+    notifiedW := c.g.notifiedConnect,
+    smNum := if !e.owner.smBit && c.sm.enabled then some c.sm.sentNr else none }
 
 theorem retire_eq (c : Conn) (e : QElem) : retire c e =
     if !e.owner.smBit && c.sm.enabled then
@@ -514,7 +515,8 @@ theorem SI_connectClient {c : Conn} (h : SI c) : SI (connectClient c).1 := by
   unfold connectClient
   split
   · exact h
-  · simp only
+  · refine SI_ite h ?_
+    simp only
     split
     · exact SI_connConnect h _ _
     · exact SI_connConnect (SI_smInit h) _ _
